@@ -1443,6 +1443,8 @@ def _hidden_cases(thorough: bool) -> list[tuple]:
             for linker in ("ADV", "O1"):
                 for w_before in (0, 1):
                     cases.append(("hidden", ncook, link, "live", linker, w_before, 0))      # control: a real link
+                    # ... after which the bystander circuit K sends link-e2e with the cookie that was just used
+                    cases.append(("hidden", ncook, link, "live", linker, w_before, 2))
                     for removal in HS_REMOVALS:
                         for reuse in (0, 1):
                             cases.append(("hidden", ncook, link, removal, linker, w_before, reuse))
@@ -1456,7 +1458,9 @@ def _run_hidden(seed: int, ncook: int, link: int, removal: str, linker: str, w_b
     (reuse) 61 s later Z = O2 -1-> X1 takes the same id; W = <linker> -7-> X1 sends link-e2e(cookie[link]).
     """
     plans = [("O1", ("X1",), (1,)), ("O2", ("R2", "X1"), (5, 6)), ("O2", ("X1",), (1,)), (linker, ("X1",), (7,))]
-    world = World5(4, seed, custom=plans, defer=(2, 3), hidden=True, no_traffic=True)
+    # (relink cases run with the library's default removal delay of 5 s: the second link-e2e arrives inside it)
+    world = World5(4, seed, custom=plans, defer=(2, 3), hidden=True, no_traffic=True,
+                   **({"remove_delay": 5} if reuse == 2 else {}))
     try:
         w = world.w
         x, z, wp = world.plans[0], world.plans[2], world.plans[3]
@@ -1486,7 +1490,7 @@ def _run_hidden(seed: int, ncook: int, link: int, removal: str, linker: str, w_b
         if removal != "live" and world.holds("X1", 1):
             raise HarnessError(f"hidden: X1 still routes id 1 after {removal}")
         status = "stale-link"
-        if reuse:
+        if reuse == 1:
             viol += _labelled(world._wait(), label)
             built = world.build_late(2)
             if built is None:
@@ -1518,6 +1522,15 @@ def _run_hidden(seed: int, ncook: int, link: int, removal: str, linker: str, w_b
             else:
                 status = "link-refused"
                 found += World5.table_diff(before, after)
+            if reuse == 2 and status == "linked" and not found:
+                # the cookie has been used: a second link-e2e naming it, from another circuit through X1, changes nothing
+                w.nodes["O2"].run(w.ov["O2"].send_cell, world.circ_obj[1].hop.address,
+                                  LinkE2EPayload(5, 201, cookies[link]))
+                w.flush()
+                world.injections += 1
+                status = "linked+relink"
+                found += [(f"relink:{o}", f"after the link, O2 sent link-e2e with the same cookie over its circuit 5-6 "
+                                          f"through X1: {d}") for o, d in World5.table_diff(after, world.table_view())]
         viol += _labelled([(o, f"{d}: {where}") for o, d in found], label)
         if not viol:
             viol += [(k, f"{what}: {where}") for k, what in _traffic(world, label)]
